@@ -1020,9 +1020,12 @@ namespace cds { namespace intrusive {
                         m_Stat.onEraseRetry();
                         continue;
                     }
+
+                    // The functor must be called under RCU lock: if the node has been physically excluded
+                    // by another thread that thread is free to dispose it after the grace period
+                    assert( pDel );
+                    f( *node_traits::to_value_ptr( pDel ));
                 }
-                assert( pDel );
-                f( *node_traits::to_value_ptr( pDel ));
                 --m_ItemCounter;
                 m_Stat.onEraseSuccess();
                 return true;
